@@ -795,6 +795,21 @@ Proof.
   split; [reflexivity|]. split; [reflexivity|]. unfold lbuf_mark. rewrite Hk. cbn [marks]. apply nth_upd_same. exact Hl.
 Qed.
 
+(* the filter command: the addressed lines (each with its newline) are the filter's input, its output replaces them;
+   the current line NUMBER is left alone *)
+Theorem filter_refines (filter : bytes -> bytes -> option bytes) loc arg s b e s1 rep :
+  xwa s = true -> plain_arg arg = true -> loc <> [] ->
+  ex_region rvalid rfind loc s = (false, b, e, s1) -> ex_zero loc b e = false ->
+  filter arg (ref_range (texts s) b e) = Some rep ->
+  let s' := fst (ec_exec rvalid rfind filter loc arg s) in
+  texts s' = splice (Z.to_nat b) (Z.to_nat e) (split_lines rep) (texts s) /\ xrow s' = xrow s1.
+Proof.
+  intros Hw Hp Hl E Hz Hf. pose proof (region_bounds _ _ _ _ _ _ _ E) as (B1 & B2 & B3). pose proof (region_texts _ _ _ _ _ _ E) as T.
+  unfold ec_exec. rewrite Hw, Hp. cbn [negb]. destruct loc as [|c loc]; [congruence|]. rewrite E, Hz. cbn [orb].
+  rewrite cp_range by lia. fold (texts s1). rewrite T, Hf. cbn [fst]. split; [|reflexivity].
+  rewrite texts_edit by lia. rewrite T. reflexivity.
+Qed.
+
 Theorem lnum_refines loc s b e s1 : ex_region rvalid rfind loc s = (false, b, e, s1) -> ex_zero loc b e = false ->
   let s' := fst (ec_lnum rvalid rfind loc s) in
   texts s' = texts s /\ xrow s' = xrow s1 /\ out s' = ONum e :: out s1.
